@@ -483,6 +483,17 @@ class SP(Robot):
         self._bottom_joints_space = bottom_joints_space_new
         self._top_joints_space = top_joints_space_new
         self.move(old_base_pos)
+        # Joint deflection is measured against the leg directions of the neutral pose:
+        # capture them again for the new joint arrangement (as the constructor does)
+        for i in range(6):
+            self._bottom_joint_angles_init[i] = fsr.globalToLocal(
+                self.getBottomT(),
+                tm([self._top_joints_space.T[i][0], self._top_joints_space.T[i][1],
+                self._top_joints_space.T[i][2], 0, 0, 0]))
+            self._top_joint_angles_init[i] = fsr.globalToLocal(
+                self.getTopT(),
+                tm([self._bottom_joints_space.T[i][0], self._bottom_joints_space.T[i][1],
+                self._bottom_joints_space.T[i][2], 0, 0, 0]))
         self.IK(top_plate_pos = self.getBottomT() @ old_local_transform, protect = True)
 
 
